@@ -141,7 +141,9 @@ class Sim:
     def canon(self):
         a = self.a
         tail = tuple(bool(x) for x in (a.array[a.index + 1:] != 0).any(axis=1))   # stale rows beyond the live part
-        return (a.index, a.array.shape[0], a.bucket_size, tail)
+        # every attribute a method reads is part of the key (drop_at and shape are meant to be constants of an array: if an
+        # operation changes them, that must show up as a new state, not be merged away)
+        return (a.index, a.array.shape[0], a.bucket_size, tail, a.drop_at, tuple(a.shape) if isinstance(a.shape, (tuple, list)) else a.shape)
 
     def observe(self):
         a, m = self.a, self.m
